@@ -102,6 +102,8 @@ def run(ctx):
     # what the equivalence test compares is the model the parser builds: every operand of a chain is seen by the constructor
     from . import C10
     ctx.do(C10.rule_nodes_built_by_constructors, rule_id="C09.type-guard")
+    # ... and a float constant is a number: two literals beyond the double range must not both become inf (and compare equal)
+    ctx.do(C10.rule_float_constant_finite, "C09.sets-and-numbers")
     from .pitfalls import rule_index_deletion_descending
 
     def _deletions(ctx_):
